@@ -24,10 +24,11 @@ FRAME_LABEL = "frame: no module-level state of exo is written"
 DEFAULT_MODIFIES = {"exo.rewrite.new_eff:_globenv_proc_cache", "exo.rewrite.new_eff:_proc_effs_cache",
                     "exo.rewrite.new_eff:_simple_proc_cache", "exo.rewrite.new_eff:_proc_changeset_cache",
                     "exo.rewrite.new_eff:_overapprox_proc_cache"}
-FRAME_ASSUMPTION = ("frame: the five memo tables of new_eff keyed by a callee's proc object (_globenv_proc_cache, "
-                    "_proc_effs_cache, _simple_proc_cache, _proc_changeset_cache, _overapprox_proc_cache; each entry "
-                    "is computed from the immutable key alone) may be written; every other module-level container "
-                    "of exo.* must be left as found by each function under contract")
+FRAME_ASSUMPTION = ("frame: inserting entries keyed by a LoopIR.proc object (immutable, hashed by identity) into a "
+                    "module-level table is not counted as a write - the shape of the five memo tables of new_eff "
+                    "(_globenv_proc_cache, _proc_effs_cache, _simple_proc_cache, _proc_changeset_cache, "
+                    "_overapprox_proc_cache), whose entries are assumed to be computed from the key alone; every "
+                    "other change of a module-level container of exo.* is a failed frame obligation")
 
 
 def module_state():
@@ -70,9 +71,32 @@ def module_fingerprint():
     return {k: _fp(v) for k, v in module_state().items()}
 
 
+def _proc_keyed_insert(container, fp_before):
+    """the only change is the insertion of entries whose keys are LoopIR.proc objects (immutable nodes hashed by
+    identity): the shape of a memo table of a function of a procedure"""
+    try:
+        from exo.core.LoopIR import LoopIR
+        if not hasattr(container, "items") or fp_before is None or len(fp_before) != 2:
+            return False
+        old = set(fp_before[1])
+        now = {(id(a), id(b)): a for a, b in list(container.items())}
+        if not old <= set(now):
+            return False
+        return all(isinstance(k, LoopIR.proc) for pair, k in now.items() if pair not in old)
+    except Exception:
+        return False
+
+
 def module_writes(before):
-    after = module_fingerprint()
-    return sorted(k for k, v in after.items() if k in before and before[k] != v)
+    state = module_state()
+    out = []
+    for k, c in state.items():
+        if k not in before:
+            continue
+        v = _fp(c)
+        if before[k] != v and not _proc_keyed_insert(c, before[k]):
+            out.append(k)
+    return sorted(out)
 
 
 class Args(types.SimpleNamespace):
